@@ -6,7 +6,7 @@ from typing import Dict, List, Optional, Set
 
 from .. import memo, q
 from ..boolterm import head_name
-from ..core import AnchorError, Ctx, FuncInfo, dotted, guard_facts, norm, returns_or_raises_everywhere, walk_no_nested
+from ..core import order_key, AnchorError, Ctx, FuncInfo, dotted, guard_facts, norm, returns_or_raises_everywhere, walk_no_nested
 from ..rewrite import check_arity, check_total
 from . import c04
 
@@ -355,8 +355,8 @@ def dest_is_fresh_here(fi: FuncInfo, node, var: str) -> bool:
             return True
         if isinstance(e, ast.Name) and e.id in binds and _is_none_test(binds[e.id], {"dest"}):
             # the flag must be computed before dest is re-assigned
-            flag_line = binds[e.id].lineno
-            rebinds = [n.lineno for n in walk_no_nested(fi.node) if isinstance(n, ast.Assign) and any(isinstance(t, ast.Name) and t.id == "dest" for t in n.targets)]
+            flag_line = order_key(binds[e.id])
+            rebinds = [order_key(n) for n in walk_no_nested(fi.node) if isinstance(n, ast.Assign) and any(isinstance(t, ast.Name) and t.id == "dest" for t in n.targets)]
             if all(flag_line < ln for ln in rebinds):
                 return True
     return False
